@@ -6,7 +6,7 @@ order, integral / mgf ties) + differential correspondence on the real classes:
 
   moments     distribution_factory(name, params).get_moment(k), k = 0..K, against the Lean specification
               `distmoment` (exact rationals) and, where the code has a formula of its own, against the Lean model of
-              the code `distimpl`; TruncNormal against 50-digit quadrature of the density (explicit tolerance)
+              the code `distimpl`; TruncNormal against 60-digit quadrature of the density (explicit tolerance 1e-30)
   support     get_support() / is_discrete() against `distsupport`, and the true support is contained
   transforms  k-th derivative at 0 of mgf(t) / cf(t) (cf divided by i^k) equals the same moment; value at t = 0;
               mgf_exists_at at / inside / outside the boundary
@@ -23,12 +23,24 @@ import sys
 from fractions import Fraction as Fr
 from math import comb, factorial
 
-from ..common import Check, lean_gate, ROOT, model_batch, rng
-from ..findings import attribute
+from ..common import Check, lean_gate, ROOT, rng
+from ..common import model_batch as _model_batch
 from ..pool import run_tasks
 from ..theorems import THEOREMS as _T
 
 PROP = "C08"
+
+
+def model_batch(reqs, tries=6):
+    """common.model_batch, tolerant of the executable being relinked by a concurrent `lake build`"""
+    import time
+    for i in range(tries):
+        try:
+            return _model_batch(reqs)
+        except (FileNotFoundError, PermissionError, OSError):
+            if i == tries - 1:
+                raise
+            time.sleep(10)
 THEOREMS = _T[PROP]
 
 TRUSTED = [
@@ -38,7 +50,7 @@ TRUSTED = [
     "specification of 'true moment' for Normal, Laplace, Beta: the textbook recurrence in Polar/Dist.lean "
     "(cross-checked numerically against mpmath quadrature of the density on every run, not proved); for Uniform, "
     "Exponential, Gamma and the finite families it is proved equal to the defining integral / expectation",
-    "TruncNormal: 50-digit mpmath quadrature of the truncated density is the oracle",
+    "TruncNormal: 60-digit mpmath quadrature of the truncated density is the oracle",
     "finite-draw trigonometric goals: direct 40-digit summation over the finite law, tolerance 1e-15",
     "sympy diff / series / limit for the derivatives of the code's mgf / cf expressions at 0",
     "harness: parameter generator, canonicalisation to exact rationals",
@@ -50,8 +62,9 @@ LEAN_FAMILY = {"Bernoulli": "Bernoulli", "Normal": "Normal", "Uniform": "Uniform
                "DiscreteUniform": "DiscreteUniform", "TruncNormal": "TruncNormal"}
 IMPL_FAMILIES = {"Bernoulli", "Uniform", "DistExp", "Categorical", "DiscreteUniform"}
 DISCRETE = {"Bernoulli", "Categorical", "DiscreteUniform"}
-TRUNC_TOL = Fr(1, 10 ** 13)          # relative tolerance for TruncNormal (the family has no rational moments)
-REPAIR_TOL = Fr(1, 10 ** 25)
+# relative tolerance for TruncNormal: the family has no rational moments; since /repo f57ee1f the code evaluates its
+# recursion with evalf(50) and returns that 50-digit decimal as a rational
+TRUNC_TOL = Fr(1, 10 ** 30)
 
 
 def fs(x):
@@ -260,7 +273,7 @@ def true_support(name, values):
     return ("interval", None, None)
 
 
-def mp_truth_truncnormal(values, ks, dps=50):
+def mp_truth_truncnormal(values, ks, dps=60):
     import mpmath as mp
     mp.mp.dps = dps
     mu, s2, a, b = [mp.mpf(v.numerator) / v.denominator for v in values]
@@ -446,17 +459,8 @@ def expected_rewrite(name, values):
 # ------------------------------------------------------------------------------------------------
 
 def _fail(chk, rec, group=None):
-    """a failing comparison: known finding (printed once per finding and group, always counted) or violation"""
-    fid = attribute(PROP, rec)
-    if fid:
-        key = (fid[0], group if group is not None else (rec.get("name") or rec.get("family") or rec.get("text")))
-        chk.count("known:" + fid[0])
-        if key not in chk.known_groups:
-            chk.known_groups.add(key)
-            chk.known_printed[fid[0]] = chk.known_printed.get(fid[0], 0) + 1
-            if chk.known_printed[fid[0]] <= 4:          # further groups of the same finding are only counted
-                chk.known(fid[0], fid[1])
-        return False
+    """a failing comparison is a violation (C08 has no known findings left: F6, F40-F43 were repaired in /repo);
+    at most 3 are printed per (kind, family, observable), the rest are counted"""
     vkey = (rec.get("kind"), rec.get("name") or rec.get("family"), rec.get("which"))
     chk.viol_groups[vkey] = chk.viol_groups.get(vkey, 0) + 1
     if chk.viol_groups[vkey] <= 3:
@@ -482,8 +486,6 @@ def _task_ok(chk, r, kind):
 def run(tier, only=None):
     chk = Check(PROP, tier)
     chk.harness_errors = []
-    chk.known_groups = set()
-    chk.known_printed = {}
     chk.viol_groups = {}
     chk.suppressed = 0
     lean_ok = lean_gate(chk, THEOREMS)
@@ -633,7 +635,9 @@ def run(tier, only=None):
     chk.assumptions = [
         "orders k = 0..%d (moments), 0..%d (transforms), 1..%d at n = 0..%d (pipeline)" % (kmax, ktr, kpipe, nmax),
         "symbolic parameters are compared at rational points",
-        "TruncNormal is compared with 50-digit quadrature, relative tolerance 1e-13 (no rational moments exist)",
+        "TruncNormal is compared with 60-digit quadrature, relative tolerance 1e-30 (no rational moments exist); note: "
+        "get_moment returns the 50-digit decimal of the moment as a rational and the solver still flags results "
+        "built from it as exact — inherent in the class's documented disclaimer, recorded here, not a finding",
         "Normal/Laplace/Gamma/Beta with symbolic parameters and TruncNormal with irrational sigma are refused by "
         "get_moment (TypeError / EvaluationException); refusals are counted, not judged",
     ]
@@ -939,8 +943,7 @@ def eval_subs(chk, sc, out, n_cmp):
             continue
         if cached != fresh:
             _fail(chk, {"kind": "subs", "name": name, "params": ps, "point": point, "k": it["k"], "expected": fresh,
-                        "actual": cached, "after_cache_clear": it.get("after_cache_clear"),
-                        "fresh_is_spec": spec is not None,
+                        "actual": cached,
                         "what": f"{name}({', '.join(ps)}): get_moment({it['k']}) → subs({point}) → get_moment({it['k']}) "
                                 f"returns the stale {cached[1]} instead of {fresh[1]}", "task": task})
         else:
@@ -1100,32 +1103,17 @@ def eval_trig(chk, tc, out, n_cmp):
 
 
 def eval_truncnormal_round2(chk, sets, trunc_repairs, trunc_models, kmax, t_task):
-    """(a) attribution of out-of-tolerance TruncNormal moments by the in-memory repair; (b) the Lean model of the
-    code's recursion (`truncrec`, φ/Φ as 60-digit inputs) against the quadrature"""
+    """(a) out-of-tolerance TruncNormal moments are violations; (b) the Lean model of the code's recursion
+    (`truncrec`, φ/Φ as 60-digit inputs) against the quadrature"""
     import mpmath as mp
-    if trunc_repairs:
-        tasks = [{"fn": "harness.tasks.c08:truncnormal_repaired",
-                  "args": {"params": c["params"], "ks": [b["k"] for b in bad]}, "timeout": t_task} for c, bad in trunc_repairs]
-        res = run_tasks(tasks, timeout=t_task)
-        for (c, bad), rr in zip(trunc_repairs, res):
-            rep = {}
-            if rr.get("status") == "ok":
-                rep = {it["k"]: it.get("val") for it in rr["result"] if it.get("tag") == "q"}
-            else:
-                chk.count("timeout:truncnormal-repair" if rr.get("status") == "timeout" else "harness-error:truncnormal-repair")
-            worst = max(bad, key=lambda b: b["rel_err"])
-            for b in ([worst] + [x for x in bad if x is not worst]):
-                rv = rep.get(b["k"])
-                rec = {"kind": "moment", **_case_id(c), "k": b["k"], "expected": b["truth"], "actual": canon(b["actual"]),
-                       "rel_err": b["rel_err"], "repaired": rv,
-                       "repaired_rel_err": None if rv is None else float(rel_err(Fr(rv), Fr(b["truth"]))),
-                       "values": [fs(v) for v in c["values"]],
-                       "what": f"TruncNormal({', '.join(c['params'])}).get_moment({b['k']}) = {float(Fr(b['actual']))!r}, "
-                               f"true moment {float(Fr(b['truth']))!r} (relative error {b['rel_err']:.2e})",
-                       "task": {"fn": "moments", "args": {"name": "TruncNormal", "params": c["params"], "kmax": b["k"],
-                                                          "point": None, "ks": [b["k"]]}}}
-                if _fail(chk, rec, group=tuple(c["params"])):
-                    break  # one violation per parameter set is enough
+    for c, bad in trunc_repairs:
+        for b in sorted(bad, key=lambda x: -x["rel_err"]):
+            _fail(chk, {"kind": "moment", **_case_id(c), "k": b["k"], "expected": b["truth"], "actual": canon(b["actual"]),
+                        "rel_err": b["rel_err"], "values": [fs(v) for v in c["values"]],
+                        "what": f"TruncNormal({', '.join(c['params'])}).get_moment({b['k']}) = {float(Fr(b['actual']))!r}, "
+                                f"true moment {float(Fr(b['truth']))!r} (relative error {b['rel_err']:.2e} > 1e-30)",
+                        "task": {"fn": "moments", "args": {"name": "TruncNormal", "params": c["params"], "kmax": b["k"],
+                                                           "point": None, "ks": [b["k"]]}}})
     # (b)
     reqs, metas = [], []
     mp.mp.dps = 70
